@@ -25,6 +25,8 @@ EXPLANATION = (
     "and encode(decode(n)) == n for every nibble — the source-address comparison of the filter reads the source host at an offset "
     "derived from these sizes."
 )
+EXPLANATION_ADD = ' Additions: (CMP-src) the source comparison is an exact equality of untransformed operands; (PARSE-hdrlen) ScionHeaderLayout::try_from_slice equates advertised and computed header size on every accepting path.'
+EXPLANATION = EXPLANATION + EXPLANATION_ADD
 RESIDUAL = ["equivalence with an independent decision procedure on all byte strings (address-type aliasing is covered only via C02/C03 tables)"]
 ASSUMPTIONS = ["tokio/quinn/ana-gotatun internals do not dispatch datagrams into SCION on their own"]
 TECHNIQUE = "MIR guarded-success (must-pass-through + controlling edge), decision-table extraction over enum discriminants, provenance, panic-site reachability"
